@@ -11,9 +11,8 @@ Import-free and executable, on top of `Model/Pipeline.lean`:
    scaling tensor has a non-zero sum (`execE` / `runE` refine `exec` / `run` with that check).
 3. **Samples that already contain tensor entries** (`sampling_mask` / `acs_mask` of prospectively under-sampled
    data, `sensitivity_map` from the dataset): `runFrom`, `givenEnv`, `Config.validG`.
-4. **Structural tables** of the builders' signatures (`Param` classification, default configuration) and of the
-   `ModuleWrapper` aliases, with the decidable well-formedness predicates the bridge evaluates on the generated
-   tables.
+(The structural tables of the builders' signatures and of the `ModuleWrapper` aliases are in
+`Model/PipelineTables.lean`.)
 -/
 namespace DirectVerif.Pipeline
 
@@ -166,98 +165,5 @@ def Config.validG (gm ga gs : Bool) (c : Config) : Bool :=
   && (!(c.estimateSmaps && c.smapType == .rssEstimate) || c.maskFunc || ga)
   && (!c.splitKeepAcs || (c.ssl && ((c.estimateSmaps && c.maskFunc) || ga)))
   && (!(gm && c.crop != .none) || ga)
-
-/-! ## structural tables of the builders' signatures -/
-
-/-- how a builder parameter enters the stage table -/
-inductive PClass
-  | operator        -- forward / backward operator: run-time data
-  | flag            -- truthiness decides a guard or a constructor flag
-  | positive        -- `x > 0.0` decides a guard
-  | enumP           -- an enum passed on to a constructor
-  | crop            -- `crop` (absent / tuple / sample key)
-  | hyper           -- numeric hyper-parameter, only passed on to constructors
-  | transformsType  -- SUPERVISED / SSL_SSDU
-  | unknown         -- not classified: the stage table may depend on it in a way the model does not know
-  deriving DecidableEq, Repr, Inhabited
-
-abbrev ParamTable := List (String × PClass)
-
-def ParamTable.ok (t : ParamTable) : Bool := t.all fun p => p.2 != .unknown
-
-/-- parameters of `build_supervised_mri_transforms`, in order -/
-def supervisedParams : ParamTable :=
-  [("forward_operator", .operator), ("backward_operator", .operator), ("mask_func", .flag), ("crop", .crop),
-   ("crop_type", .hyper), ("rescale", .flag), ("rescale_mode", .hyper), ("rescale_2d_if_3d", .hyper),
-   ("pad", .flag), ("image_center_crop", .flag), ("random_rotation_degrees", .hyper),
-   ("random_rotation_probability", .positive), ("random_flip_type", .hyper), ("random_flip_probability", .positive),
-   ("random_reverse_probability", .positive), ("padding_eps", .positive), ("estimate_body_coil_image", .flag),
-   ("estimate_sensitivity_maps", .flag), ("sensitivity_maps_type", .enumP), ("sensitivity_maps_gaussian", .flag),
-   ("sensitivity_maps_espirit_threshold", .hyper), ("sensitivity_maps_espirit_kernel_size", .hyper),
-   ("sensitivity_maps_espirit_crop", .hyper), ("sensitivity_maps_espirit_max_iters", .hyper),
-   ("delete_acs_mask", .flag), ("delete_kspace", .flag), ("image_recon_type", .enumP), ("compress_coils", .flag),
-   ("pad_coils", .flag), ("scaling_key", .enumP), ("scale_percentile", .flag), ("use_seed", .flag)]
-
-/-- the additional parameters of `build_mri_transforms` -/
-def outerExtraParams : ParamTable :=
-  [("transforms_type", .transformsType), ("mask_split_ratio", .hyper), ("mask_split_acs_region", .hyper),
-   ("mask_split_keep_acs", .flag), ("mask_split_type", .enumP), ("mask_split_gaussian_std", .hyper),
-   ("mask_split_half_direction", .hyper)]
-
-def outerParams : ParamTable := supervisedParams ++ outerExtraParams
-
-/-- parameters of `build_pre_mri_transforms` -/
-def preParams : ParamTable :=
-  [("forward_operator", .operator), ("backward_operator", .operator), ("mask_func", .flag), ("crop", .crop),
-   ("crop_type", .hyper), ("rescale", .flag), ("rescale_mode", .hyper), ("rescale_2d_if_3d", .hyper),
-   ("pad", .flag), ("image_center_crop", .flag), ("random_rotation_degrees", .hyper),
-   ("random_rotation_probability", .positive), ("random_flip_type", .hyper), ("random_flip_probability", .positive),
-   ("padding_eps", .positive), ("estimate_body_coil_image", .flag), ("use_seed", .flag), ("pad_coils", .hyper)]
-
-/-- parameters of `build_post_mri_transforms` -/
-def postParams : ParamTable :=
-  [("backward_operator", .operator), ("estimate_sensitivity_maps", .flag), ("sensitivity_maps_type", .enumP),
-   ("sensitivity_maps_gaussian", .flag), ("sensitivity_maps_espirit_threshold", .hyper),
-   ("sensitivity_maps_espirit_kernel_size", .hyper), ("sensitivity_maps_espirit_crop", .hyper),
-   ("sensitivity_maps_espirit_max_iters", .hyper), ("delete_acs_mask", .flag), ("delete_kspace", .flag),
-   ("image_recon_type", .enumP), ("scaling_key", .enumP), ("scale_percentile", .flag)]
-
-/-- `ModuleWrapper` aliases: (alias, module class, `toggle_dims`) -/
-abbrev WrapperTable := List (String × String × Bool)
-
-def wrapperTable : WrapperTable :=
-  [("ApplyMask", "ApplyMaskModule", false), ("ComputeImage", "ComputeImageModule", true),
-   ("EstimateSensitivityMap", "EstimateSensitivityMapModule", true), ("DeleteKeys", "DeleteKeysModule", false),
-   ("RenameKeys", "RenameKeysModule", false), ("CompressCoil", "CompressCoilModule", true),
-   ("PadCoilDimension", "PadCoilDimensionModule", true), ("ComputeScalingFactor", "ComputeScalingFactorModule", true),
-   ("Normalize", "NormalizeModule", false), ("WhitenData", "WhitenDataModule", false),
-   ("GaussianMaskSplitter", "GaussianMaskSplitterModule", true), ("UniformMaskSplitter", "UniformMaskSplitterModule", true),
-   ("HalfMaskSplitter", "HalfMaskSplitterModule", true)]
-
-/-- modules whose `forward` indexes / reduces over a leading batch axis must be wrapped with `toggle_dims=True`;
-the purely key-wise ones must not be (they would otherwise see list-valued metadata) -/
-def batchedModules : List String :=
-  ["ComputeImageModule", "EstimateSensitivityMapModule", "CompressCoilModule", "PadCoilDimensionModule",
-   "ComputeScalingFactorModule", "GaussianMaskSplitterModule", "UniformMaskSplitterModule", "HalfMaskSplitterModule"]
-
-def WrapperTable.ok (t : WrapperTable) : Bool :=
-  t.all fun (_, mod, toggle) => toggle == batchedModules.contains mod
-
-/-! ## in-place / aliasing facts of the stage programs (the model is pure; these are the syntactic facts that
-make a pure model adequate) -/
-
-/-- keys a stage list may write: everything but the raw `kspace` *array* is a fresh tensor; the table below lists,
-for every stage, the keys its program assigns (read off `compile`) -/
-def writes : List Instr → List Key
-  | [] => []
-  | .assign _ d _ _ :: r => d :: writes r
-  | .move _ d :: r => d :: writes r
-  | _ :: r => writes r
-
-/-- no stage program writes a key outside the sample vocabulary it is documented to produce, and temporaries
-are deleted at the end of the stage that introduces them -/
-def tempsClean (p : List Instr) : Bool :=
-  [Key.t1, .t2, .t3, .t4, .t5].all fun t =>
-    !(writes p).contains t || p.contains (.delete t)
 
 end DirectVerif.Pipeline
